@@ -84,10 +84,14 @@ Definition std_skip (s : st) (skip : list (name * bound)) (rp : name * name) : b
   || negb (mem (fst rp) (train s)) || negb (mem (snd rp) (train s)).
 (* written with the branch at the level of the VALUES (r >= 0: both components are assigned their own value,
    i.e. nothing changes), so that the state stays a record and the correspondence goals stay small *)
+(* _std_polar_angle (since /repo 7a94ee8 its result is stored): the phase is brought into [-pi, pi).  One step of the wrap
+   moves by 2 pi; three steps cover |phi| < 7 pi (the harness checks that the phases it ties are inside that range) *)
+Definition wrap1 (x : R) : R := if Rlt_dec x (- PI) then x + 2 * PI else if Rle_dec PI x then x - 2 * PI else x.
+Definition wrap_phase (x : R) : R := wrap1 (wrap1 (wrap1 x)).
 Definition std_one (skip : list (name * bound)) (s : st) (rp : name * name) : st :=
   if std_skip s skip rp then s
   else write (write s (fst rp) (if Rlt_dec (read s (fst rp)) 0 then Rabs (read s (fst rp)) else read s (fst rp)))
-             (snd rp) (if Rlt_dec (read s (fst rp)) 0 then read s (snd rp) + PI else read s (snd rp)).
+             (snd rp) (wrap_phase (if Rlt_dec (read s (fst rp)) 0 then read s (snd rp) + PI else read s (snd rp))).
 Definition standard_complex (skip : list (name * bound)) (s : st) : st := fold_left (std_one skip) (polar s) s.
 
 (* the standard_complex of the tree before the repair: only bnd_dic (already emptied) was consulted *)
